@@ -19,6 +19,7 @@ func runC19(t *kernel.Tape, opt core.Opts) *core.Outcome {
 		Streams: true, Handlers: true, Yields: 1, Parallelism: t.PlanBool(40)}
 	p := Generate(t, g)
 	maybeAnyTypes(t, p)
+	maybeInputKeys(t, p)
 	in := M{"in": fmt.Sprintf("x%d", t.Plan(3))}
 	par := PStream
 	if t.PlanBool(40) {
@@ -95,6 +96,7 @@ func runC09(t *kernel.Tape, opt core.Opts) *core.Outcome {
 		Streams: t.PlanBool(60), Handlers: true, Yields: 2, Parallelism: t.PlanBool(40)}
 	p := Generate(t, g)
 	maybeAnyTypes(t, p)
+	maybeInputKeys(t, p)
 	nc := 2 + t.Plan(3)
 	calls := make([]*Call, nc)
 	models := make([]*ModelResult, nc)
